@@ -147,7 +147,7 @@ def drive(mod, tier, seed):
               "outcome": oc if oc == "ok" else oc.split(":")[0] + ":" + oc.split(":")[1], "note": note,
               "detail": "" if oc == "ok" else oc, "cls": -1, "result_d": "none"}
         if oc == "ok":
-            ev["cls"] = memo.cls(fn, before, res)
+            ev["cls"] = memo.cls(env_name + "/" + fn, before, res)
             ev["result_d"] = jsonify.digest(res)
         evs.append(ev)
 
@@ -236,7 +236,7 @@ def drive(mod, tier, seed):
                     res = to_np((slice_tree(vs, lane), slice_tree(vt, lane)))
                     evs.append({"k": "call", "env": name, "fn": "step", "mode": f"vmap{len(chosen)}", "seq": seq[0], "args_d": d,
                                 "args_after_d": d, "outcome": "ok", "note": f"eventful transition, lane {lane}", "detail": "",
-                                "cls": memo.cls("step", d, res), "result_d": jsonify.digest(res)})
+                                "cls": memo.cls(name + "/step", d, res), "result_d": jsonify.digest(res)})
             except Exception as e:  # noqa: BLE001
                 seq[0] += 1
                 evs.append({"k": "call", "env": name, "fn": "step", "mode": "vmap", "seq": seq[0], "args_d": "x", "args_after_d": "x",
@@ -250,7 +250,7 @@ def drive(mod, tier, seed):
             d = jsonify.digest(to_np((s, a)))
             evs.append({"k": "call", "env": name, "fn": "step", "mode": "jit_clean_process", "seq": seq[0], "args_d": d, "args_after_d": d,
                         "outcome": "ok", "note": f"eventful transition replayed in a process that built nothing else ({decoys} decoys here)",
-                        "detail": "", "cls": memo.cls("step", d, res_clean), "result_d": jsonify.digest(res_clean)})
+                        "detail": "", "cls": memo.cls(name + "/step", d, res_clean), "result_d": jsonify.digest(res_clean)})
         for (score, ch, last, rewarded, s, a) in chosen:
             note = f"eventful transition: changed {len(ch)} leaves{', rewarded' if rewarded else ''}{', LAST' if last else ''}"
             call(name, "step", "jit", jstep, (s, a), note=note)
